@@ -2,6 +2,7 @@ package vc
 
 import (
 	"fmt"
+	"strings"
 	"go/constant"
 	"go/token"
 	"go/types"
@@ -118,10 +119,12 @@ func (ex *Exec) step(st *State) bool {
 		st0 := p.T.Underlying().(*types.Struct)
 		np := &VPtr{Nil: False, Obj: p.Obj, Path: append(append([]int(nil), p.Path...), in.Field), T: st0.Field(in.Field).Type()}
 		if p.Obj == nil {
-			if p.ElemRef != nil {
-				ex.unsupported("address of a field of a struct stored in a slice")
+			if p.ElemRef != nil && p.ElemIdx != nil {
+				// field of a struct stored in a slice/array element
+				np.ElemRef, np.ElemIdx, np.ElemT = p.ElemRef, p.ElemIdx, p.ElemT
+			} else {
+				np.Nil = True // unreachable
 			}
-			np.Nil = True // unreachable
 		}
 		fr.regs[in] = np
 	case *ssa.IndexAddr:
@@ -249,7 +252,23 @@ func (ex *Exec) doAlloc(st *State, fr *Frame, in *ssa.Alloc) {
 	if name == "" {
 		name = in.Name()
 	}
-	obj := ex.newObject(fmt.Sprintf("%s.%s", fr.fn.Name(), name), et, true)
+	// object identity is a function of the allocation site, the call stack and the
+	// execution count, so that paths reaching the same point agree on it (state merging)
+	if fr.allocCount == nil {
+		fr.allocCount = map[ssa.Instruction]int{}
+	}
+	fr.allocCount[in]++
+	var kb strings.Builder
+	for _, f := range st.frames {
+		fmt.Fprintf(&kb, "%p:%d:%d:%d|", f.fn, f.block.Index, f.idx, f.instance)
+	}
+	fmt.Fprintf(&kb, "%p#%d", in, fr.allocCount[in])
+	key := kb.String()
+	obj, ok := ex.cur.allocObjs[key]
+	if !ok {
+		obj = ex.newObject(fmt.Sprintf("%s.%s", fr.fn.Name(), name), et, true)
+		ex.cur.allocObjs[key] = obj
+	}
 	st.mem[obj] = ex.zeroValue(et)
 	fr.regs[in] = &VPtr{Nil: False, Obj: obj, T: et}
 }
@@ -472,7 +491,7 @@ func knownNonNeg(st *State, x *Term) bool {
 			return true
 		}
 	}
-	if st.pcSeen[Le(IntLit(0), x).String()] || st.pcSeen[Ge(x, IntLit(0)).String()] {
+	if st.seen.Has(Le(IntLit(0), x).Key()) || st.seen.Has(Ge(x, IntLit(0)).Key()) {
 		return true
 	}
 	return false
@@ -731,18 +750,18 @@ func (ex *Exec) valuesEqual(st *State, t types.Type, a, b Value) *Term {
 		y := b.(*VSlice)
 		// only comparison with nil is legal Go
 		if y.Ref.IsIntLit() && y.Len.IsIntLit() {
-			return Eq(x.Ref, IntLit(0))
+			return st.refIsNil(x.Ref)
 		}
 		if x.Ref.IsIntLit() && x.Len.IsIntLit() {
-			return Eq(y.Ref, IntLit(0))
+			return st.refIsNil(y.Ref)
 		}
 	case *VMap:
 		y := b.(*VMap)
 		if y.Ref.IsIntLit() {
-			return Eq(x.Ref, IntLit(0))
+			return st.refIsNil(x.Ref)
 		}
 		if x.Ref.IsIntLit() {
-			return Eq(y.Ref, IntLit(0))
+			return st.refIsNil(y.Ref)
 		}
 	case *VFunc:
 		y := b.(*VFunc)
@@ -886,6 +905,11 @@ func (ex *Exec) resolveIface(st *State, x *VIface, instr ssa.Instruction) (*VIfa
 		}
 		return x, &x.Alts[i]
 	}
+	for i, a := range x.Alts {
+		if st.knows(Eq(x.Tag, IntLit(int64(ex.typeID(a.T))))) {
+			return x, &x.Alts[i]
+		}
+	}
 	var states []*State
 	for i, a := range x.Alts {
 		s := st.clone()
@@ -918,4 +942,14 @@ func (ex *Exec) unboxSymbolic(st *State, t types.Type, pay *Term) Value {
 	}
 	pos := 0
 	return ex.unflatten(st, t, vals, &pos)
+}
+
+// refIsNil: ref == 0, decided syntactically for refs allocated on this path.
+func (st *State) refIsNil(ref *Term) *Term {
+	for _, fr := range st.freshRefs {
+		if Equal(fr, ref) {
+			return False
+		}
+	}
+	return Eq(ref, IntLit(0))
 }
